@@ -1066,6 +1066,17 @@ pub(crate) mod alloc {
             - BlsScalar::one())
             * domain.size_inv;
 
+        // For a point of the domain itself the closed form below degenerates
+        // to `0 * (1 / 0)`: the interpolant there is simply the evaluation
+        // at that element (zero past the end of the supplied evaluations).
+        if numerator == BlsScalar::zero() {
+            return domain
+                .elements()
+                .position(|element| element == *point)
+                .and_then(|index| evaluations.get(index).copied())
+                .unwrap_or(BlsScalar::zero());
+        }
+
         // Indices with non-zero evaluations
         #[cfg(not(feature = "std"))]
         let range = (0..evaluations.len()).into_iter();
